@@ -91,7 +91,7 @@ def run(ctx, rep):
                           "%s calls %s, which sniffs a byte-order mark: a segment starting EF BB BF / FF FE / FE FF is decoded as UTF-8/UTF-16 instead of its codepage" % (name, d),
                           b.loc(t["line"]), sample={"function": name, "callee": d})
                 rep.fn(name)
-    rep.floor("R10.3", 4)
+    rep.floor("R10.3", 2)
     marker_discipline(ctx, rep)
     # R10.5 both conversions are total: panic-site inventory
     import panics
